@@ -13,6 +13,11 @@ CLAIMED = {
   note="Trusted: assumed contracts of <[T]>::reverse and slice Iter::position, String==str equality axioms, slice length bound, vstd iterator/Vec/Option specs, Event/EventKind extracted mechanically from rip-kernel with serde attributes dropped (R1) and serde_json::Value opaque, rules R2,R4,R7 (for-with-continue to index loop). Not decided: None-case of the tail cut (anchor absent), resolve_context_compile_cutpoint_full and agreement between tail/window/full paths, compile_* assembly, races with appends.",
   technique="Verus contracts against recursive spec functions (loop invariants, induction lemma) on mechanically extracted context-compile kernels",
   ref="§4 C08"),
+ 'C10': dict(
+  text="Unbounded deductive proof (Verus/Z3) on the real ContinuityStore::branch and ::handoff (100+ lines each, iterator closures, match guards) extracted from /repo on every run, against a specification of the cut written from the property statement over the source thread as replayed: the recorded cut lies within the source thread; with from_seq it equals that seq and names the last message frame at or before it; with from_message_id the message exists and the cut is the last frame related to it (the message or a run frame naming it); with neither it is the head and the last message; both selectors are refused; on Ok the child's frames are its creation at seq 0 and a lineage frame at seq 1 carrying exactly the returned cut, and a handoff carries a summary artifact id. Every append in these functions needs the seq reserved for the frame's own stream, so no frame can be added to the source thread. Closure contracts on every find/map closure are checked; the rev().find() results are tied to the spec by naming the hidden iterator view (exists/choose) and a lemma. The known race F4 (lineage frame written outside the seq lock) is reported as KNOWN-FINDING.",
+  note="Trusted: replay_events returns the source stream in strictly ascending seq order (assumed), stubbed collaborators (create_continuity through the contract proved in c01_cont, EventLog::append, sidecar, broadcast), vstd iterator specs (iter/rev/find/map), String equality axioms, rules R1,R2,R9,R10 (or-pattern arm with guard split). Not decided: that other code leaves the parent's bytes untouched, replay fidelity, HTTP-level validation of selectors.",
+  technique="Verus contracts against recursive spec functions with timeless facts and closure contracts on mechanically extracted branch/handoff; native replay enumerator for counterexamples",
+  ref="§4 C10"),
  'C13': dict(
   text="Unbounded deductive proof (Verus/Z3) on the five real path resolvers extracted from /repo on every run (builtins::resolve_path, tasks::logs::resolve_path, Workspace::safe_join, Workspace::to_relative, patch::parse_rel_path): whenever a resolver returns Ok, the input was relative and free of parent-directory segments and the resolved path lies lexically inside the workspace root (root's components followed only by normal names), for every path string. Closure contracts on the ParentDir tests are checked against the closure bodies. A failing obligation is replayed against the real std::path on an enumerated domain of path strings to attach a concrete input. Partial: effect-level obligations on the file-system calls of the tools (every fs call receives a resolved path) are not yet under contract.",
   note="Trusted: the lexical model of std::path (Unix semantics: components/is_absolute/join/strip_prefix stubs in prelude/path_model.rs), vstd, rules R1,R2,R4,R8. Not decided: symlinks, walkdir/grep internals, Workspace::apply_patch's own fs calls (closures capturing &mut are rejected by Verus), 'a refused request has no side effect' beyond the resolvers being pure, checkpoint id / session id validation on rewind.",
